@@ -25,7 +25,9 @@ RULE = ("(a) quick: all strings of length <= 3 plus length 4 over a 19-character
         "plus length 5 over a 12-character sub-alphabet, "
         "over the 26-character soup alphabet, each followed by ' .\\nsentinel(1).\\nsentinel(2).\\n'; (b) every single-character "
         "deletion, insertion and substitution (quick: 10 replacement characters; thorough: all 26) of a 68-clause corpus of (mostly valid) "
-        "text, followed by the sentinels. Inputs are files read with read_term/2 until end_of_file (cap 16/24 reads). "
+        "text, followed by the sentinels; and, under each of the operator tables default + op(1100,xfy,'|'), op(700,xfx,a), "
+        "op(200,xfy,a), op(200,fy,a), op(200,xf,a), op(0,yfx,-): all strings of length <= 4 over a 12-character (thorough 15) "
+        "sub-alphabet and the corpus mutations with 4 (thorough 10) replacement characters. Inputs are files read with read_term/2 until end_of_file (cap 16/24 reads). "
         "Non-trivial: at least one read raises a syntax error.")
 LEVEL_TEXT = ("bounded exhaustive exploration of the real lexer/parser/stream stack in worker subprocesses (a panic, crash or "
               "hang is attributed to the input)")
@@ -36,6 +38,22 @@ MIN_OUTCOMES = 3
 SUB5 = ["a", "0", "'", '"', "\\", "(", ")", ",", "|", ".", " ", "\n"]
 SUB4 = ["a", "X", "_", "0", "'", '"', "\\", "(", ")", "[", ",", "|", ".", " ", "\n", "%", "/", "*", "\x01"]
 MUT_Q = ["a", "X", "0", "'", '"', "\\", "(", ".", " ", "\x01"]
+
+# operator-table variants: name -> (ops applied on top of the default table, ops undoing them)
+TABLES = {
+    "default": ([], []),
+    "bar_xfy1100": ([(1100, "xfy", "|")], [(0, "xfy", "|")]),
+    "a_xfx700": ([(700, "xfx", "a")], [(0, "xfx", "a")]),
+    "a_xfy200": ([(200, "xfy", "a")], [(0, "xfy", "a")]),
+    "a_fy200": ([(200, "fy", "a")], [(0, "fy", "a")]),
+    "a_xf200": ([(200, "xf", "a")], [(0, "xf", "a")]),
+    "no_infix_minus": ([(0, "yfx", "-")], [(500, "yfx", "-")]),
+}
+VARIANTS = [t for t in TABLES if t != "default"]
+# reduced families run under each variant table
+VSOUP = {"quick": ["a", "X", "0", "(", ")", "[", "]", ",", "|", ".", " ", "-"],
+         "thorough": ["a", "X", "0", "'", "(", ")", "[", "]", "{", ",", "|", ".", " ", "-", "\n"]}
+VMUT = {"quick": ["a", "|", "(", "-"], "thorough": MUT_Q}
 
 CORPUS = [
     "foo.", "foo(bar, Baz).", "p :- q, r.", "p(X) :- q(X, _), \\+ r(X).", "a :- b ; c -> d.",
@@ -93,7 +111,40 @@ def mutations(clause, alpha):
                     yield ("sub", i, c, m)
 
 
+def vsoups(tier):
+    for n in range(0, 5):
+        for t in itertools.product(VSOUP[tier], repeat=n):
+            yield "".join(t)
+
+
+def ops_text(ops):
+    return "[" + ",".join("op(%d,%s,[%s])" % (p, t, ",".join(str(ord(c)) for c in n)) for (p, t, n) in ops) + "]"
+
+
+def set_table(w, table):
+    ops, _ = TABLES[table]
+    if ops:
+        r = px.run_goals(w, ["g(c17_ops(%s))" % ops_text(ops)])[0]
+        if r.status != "done" or len(r.sols) != 1:
+            raise pool.MachineryError("cannot set operator table %s: %r" % (table, r))
+
+
+def restore_table(w, table):
+    _, undo = TABLES[table]
+    if undo:
+        r = px.run_goals(w, ["g(c17_ops(%s))" % ops_text(undo)])[0]
+        if r.abn or r.status != "done" or len(r.sols) != 1:
+            w.new_machine()
+
+
 def bound_text(tier):
+    nv = sum(1 for _ in vsoups(tier))
+    nvm = sum(1 + sum(1 for _ in mutations(c, VMUT[tier])) for c in CORPUS)
+    return _bound_default(tier) + "; under each of %d operator-table variants (%s): %d soup strings (length <= 4 over %d characters) + %d corpus mutations" % (
+        len(VARIANTS), ", ".join(VARIANTS), nv, len(VSOUP[tier]), nvm)
+
+
+def _bound_default(tier):
     ns = sum(1 for _ in soups(tier))
     alpha = SOUP if tier == "thorough" else MUT_Q
     nm = sum(1 + sum(1 for _ in mutations(c, alpha)) for c in CORPUS)
@@ -105,10 +156,18 @@ def bound_text(tier):
 NSOUP = {"quick": 32, "thorough": 64}
 
 
+NVSOUP = {"quick": 4, "thorough": 8}
+
+
 def shards(tier):
-    sh = [("soup", k, NSOUP[tier]) for k in range(NSOUP[tier])]
+    sh = [("soup", k, NSOUP[tier], "default") for k in range(NSOUP[tier])]
     for i in range(0, len(CORPUS), 4):
-        sh.append(("mut", i, min(i + 4, len(CORPUS))))
+        sh.append(("mut", i, min(i + 4, len(CORPUS)), "default"))
+    for tb in VARIANTS:
+        for k in range(NVSOUP[tier]):
+            sh.append(("soup", k, NVSOUP[tier], tb))
+        for i in range(0, len(CORPUS), 17):
+            sh.append(("mut", i, min(i + 17, len(CORPUS)), tb))
     return sh
 
 
@@ -294,19 +353,30 @@ def run_texts(w, texts, cap):
     return out
 
 
-def sig_of(part, text, vk):
-    return "%s %s %s" % (part, vk, text_class(text))
+def sig_of(part, text, vk, table="default"):
+    return "%s%s %s %s" % (part, "" if table == "default" else "@" + table, vk, text_class(text))
 
 
 def run_shard(w, shard, tier):
+    table = shard[3]
+    set_table(w, table)
+    try:
+        return _run_shard(w, shard, tier, table)
+    finally:
+        restore_table(w, table)
+
+
+def _run_shard(w, shard, tier, table):
     acc = px.ShardAcc()
+    variant = table != "default"
     if shard[0] == "soup":
-        _, k, n = shard
-        items = (("soup", s, s + TAIL) for i, s in enumerate(soups(tier)) if i % n == k)
+        _, k, n, _t = shard
+        src = vsoups(tier) if variant else soups(tier)
+        items = (("soup", s, s + TAIL) for i, s in enumerate(src) if i % n == k)
         cap = 16
     else:
-        _, lo, hi = shard
-        alpha = SOUP if tier == "thorough" else MUT_Q
+        _, lo, hi, _t = shard
+        alpha = VMUT[tier] if variant else (SOUP if tier == "thorough" else MUT_Q)
 
         def gen():
             for ci in range(lo, hi):
@@ -318,20 +388,27 @@ def run_shard(w, shard, tier):
         cap = 24
     for batch in px.chunked(items, BATCH):
         rs = run_texts(w, [b[2] for b in batch], cap)
+        if variant and any(r.abn for r in rs):
+            set_table(w, table)      # a panic/crash rebuilt the machine with the default table
         for (part, ident, text), r in zip(batch, rs):
             label, vk, obs = judge(text, r)
             nt = "se" in obs.split() or vk is not None
-            acc.case(nt, label, sample=None if len(acc.samples) >= 3 else {"input": text, "reads": obs})
+            acc.case(nt, label, sample=None if len(acc.samples) >= 3 else {"input": text, "table": table, "reads": obs})
             if vk:
-                acc.violation(sig_of(part, text, vk), {"part": part, "text": text, "cap": cap},
+                acc.violation(sig_of(part, text, vk, table), {"part": part, "text": text, "cap": cap, "table": table},
                               expected=expected_text(text), observed=obs)
     return acc.result()
 
 
 def recheck(w, case, tier):
     text = case["text"]
-    r = run_texts(w, [text], case.get("cap", 16))[0]
+    table = case.get("table", "default")
+    set_table(w, table)
+    try:
+        r = run_texts(w, [text], case.get("cap", 16))[0]
+    finally:
+        restore_table(w, table)
     label, vk, obs = judge(text, r)
     if vk:
-        return {"sig": sig_of(case["part"], text, vk), "case": case, "expected": expected_text(text), "observed": obs}
+        return {"sig": sig_of(case["part"], text, vk, table), "case": case, "expected": expected_text(text), "observed": obs}
     return None
